@@ -86,6 +86,7 @@ type api[K any] struct {
 	Init           func() // re-initialise (same comparator)
 	Node           func(K) (key K, val int, nextKey K, hasNext, ok bool)
 	NodeSetValue   func(K, int) bool
+	Hold           func(K) (read func() (K, int), write func(int), ok bool) // a node handle kept by the caller
 	Head           func() (K, int, bool)
 	Len            func() int
 	Keys           func() []K
@@ -116,6 +117,13 @@ func ordAPI[K interface{ ~int | ~string | ~float64 }](s *listz.SkipList[K, int])
 			}
 			n.SetValue(v)
 			return true
+		},
+		Hold: func(k K) (func() (K, int), func(int), bool) {
+			n := s.GetNode(k)
+			if n == nil {
+				return nil, nil, false
+			}
+			return func() (K, int) { return n.Key(), n.Value() }, func(v int) { n.SetValue(v) }, true
 		},
 		Head: func() (k K, v int, ok bool) {
 			if n := s.Head(); n != nil {
@@ -155,6 +163,13 @@ func cmpAPI(s *listz.SkipListWithCmp[int, int], cmp func(a, b int) int) api[int]
 			}
 			n.SetValue(v)
 			return true
+		},
+		Hold: func(k int) (func() (int, int), func(int), bool) {
+			n := s.GetNode(k)
+			if n == nil {
+				return nil, nil, false
+			}
+			return func() (int, int) { return n.Key(), n.Value() }, func(v int) { n.SetValue(v) }, true
 		},
 		Head: func() (k int, v int, ok bool) {
 			if n := s.Head(); n != nil {
@@ -404,6 +419,18 @@ func drive[K comparable](c skipCase, r *pb.Rec, a api[K], keyOf func(int) K, les
 	wrote, inserts, removedPresent, absentStart := false, 0, false, false
 	var heldKeys []K
 	heldKeysCopy := ""
+	// node handles the caller kept: while the binding is in the list only the handle is remembered; once the key has
+	// been removed the handle is the caller's own data - it keeps reading what it read at that moment (or what the
+	// caller wrote through it since), and writing through it changes nothing in the list
+	type handle struct {
+		read     func() (K, int)
+		write    func(int)
+		detached bool
+		k        K
+		v        int
+	}
+	live := map[int]*handle{}
+	var stale []*handle
 	// expect compares an enumeration (with early stop at index stop) with the expected key list
 	enum := func(name string, want []int, stop int, call func(f func(K, int) bool)) error {
 		var got []K
@@ -497,16 +524,24 @@ func drive[K comparable](c skipCase, r *pb.Rec, a api[K], keyOf func(int) K, les
 				removedPresent = true
 			}
 			delete(model, o.A)
+			if h := live[o.A]; h != nil && present {
+				delete(live, o.A)
+				h.detached = true
+				h.k, h.v = h.read()
+				stale = append(stale, h)
+			}
 			if l := levelOf(a.list); l >= 0 && l < lvlBefore {
 				r.Class("top level shrank")
 			}
 		case opClear:
 			a.Clear()
 			model = map[int]int{}
+			live = map[int]*handle{}
 			r.ClassIf(wrote, "clear after writes")
 		case opInit:
 			a.Init()
 			model = map[int]int{}
+			live = map[int]*handle{}
 			r.ClassIf(wrote, "Init after writes")
 		case opGet:
 			v, ok := a.Get(ka)
@@ -531,6 +566,9 @@ func drive[K comparable](c skipCase, r *pb.Rec, a api[K], keyOf func(int) K, les
 					return fail("second GetNode failed")
 				}
 				model[o.A] = val
+				if rd, wr, ok := a.Hold(ka); ok && val%2 == 0 {
+					live[o.A] = &handle{read: rd, write: wr}
+				}
 			}
 		case opHead:
 			// checked after every step below
@@ -547,6 +585,24 @@ func drive[K comparable](c skipCase, r *pb.Rec, a api[K], keyOf func(int) K, les
 			for i, k := range ks {
 				if gk[i] != keyOf(k) || gv[i] != model[k] {
 					return fail("Keys/Values[%d] = (%v,%d) want (%v,%d)", i, gk[i], gv[i], keyOf(k), model[k])
+				}
+			}
+			// the caller does what it likes with slices it was given (here: reverses one, zeroes the other); the next
+			// Keys()/Values() calls on the unchanged list are right all the same
+			mk, mv := a.Keys(), a.Values()
+			for i, j := 0, len(mk)-1; i < j; i, j = i+1, j-1 {
+				mk[i], mk[j] = mk[j], mk[i]
+			}
+			for i := range mv {
+				mv[i] = -7
+			}
+			gk2, gv2 := a.Keys(), a.Values()
+			if len(gk2) != len(ks) || len(gv2) != len(ks) {
+				return fail("Keys/Values lengths %d/%d want %d after the caller modified slices returned by earlier calls", len(gk2), len(gv2), len(ks))
+			}
+			for i, k := range ks {
+				if gk2[i] != keyOf(k) || gv2[i] != model[k] {
+					return fail("after the caller reversed / zeroed the slices returned by earlier Keys()/Values() calls, Keys/Values[%d] = (%v,%d) want (%v,%d)", i, gk2[i], gv2[i], keyOf(k), model[k])
 				}
 			}
 		case opRange:
@@ -593,6 +649,16 @@ func drive[K comparable](c skipCase, r *pb.Rec, a api[K], keyOf func(int) K, les
 		// after every step: Len and Head
 		if a.Len() != len(model) {
 			return fail("Len = %d, model %d", a.Len(), len(model))
+		}
+		for i, h := range stale {
+			if k, v := h.read(); fmt.Sprint(k) != fmt.Sprint(h.k) || v != h.v {
+				return fail("a node handle kept by the caller, whose key %v was removed from the list, now reads (%v,%d); it read (%v,%d) after the removal", h.k, k, v, h.k, h.v)
+			}
+			if (step+i)%3 == 0 {
+				h.v = -1000 - step // writing through the handle of a removed binding changes nothing in the list
+				h.write(h.v)
+				r.Class("SetValue through the handle of a removed binding")
+			}
 		}
 		hk, hv, hok := a.Head()
 		ks := sorted()
